@@ -104,10 +104,11 @@ def standard_plan(chk, focus, nt_key, kinds_quick=("sort",), kinds_thorough=("so
         plans.append(("d4-idle1-h1", dict(depth=4, MaxIdle=1, H=1, Confs={900}, MaxDets=1)))
         plans.append(("sim250", dict(depth=250, MaxIdle=2, H=3, Slots={1, 2, 3}, sim=6, simulate={"num": 12, "depth": 251})))
         plans.append(("sim250-maha", dict(depth=250, MaxIdle=1, Metric="maha", Thr=1000, sim=6, simulate={"num": 8, "depth": 251})))
-    for name, kw in plans:
+    for pi, (name, kw) in enumerate(plans):
         r, c = generate(chk, name, **kw)
         for i, kind in enumerate(kinds):
-            for shards in ((2,) if quick else (1, 2, 3)):
+            # quick: one shard count per plan, another one for every plan (2, 3, 1, 2, ..)
+            for shards in (((2, 3, 1)[pi % 3],) if quick else (1, 2, 3)):
                 # quick: the first kind replays everything, further kinds every 8th behaviour of the big enumeration
                 stride = 8 if (quick and i > 0 and name.startswith("d3-idle0")) else 1
                 replay(chk, name, r, c, kind, shards, focus, nt_key, stride=stride)
